@@ -22,7 +22,15 @@ func init() {
 	})
 }
 
-var c05Exceptions = []boundsException{}
+// Sites of the renderer/escapers in range by an argument the engine cannot express. One symbol, one reason.
+var c05Exceptions = []boundsException{
+	{"runtime.(*renderer).Text#txt[0]",
+		"txt is never empty: the Text instruction is emitted only for non-empty text (obligation R-4 compiler.emitText#non-empty-argument of this same check: every call of functionBuilder.emitText is dominated by len(txt) != 0, and flushText concatenates those chunks)"},
+	{"runtime.(*renderer).Text#txt[1:]",
+		"same as txt[0]: under txt[0] == '?', so len(txt) ≥ 1"},
+	{"runtime.jsStringEscape#s[last:]",
+		"last is i+1, or i+3 when the rune decoded at i by `for i, c := range s` is U+2028/U+2029, which occupy exactly three bytes of s starting at i; hence last ≤ len(s)"},
+}
 
 func runC05(r *Run) {
 	const rel = "internal/runtime"
@@ -100,7 +108,7 @@ func runC05(r *Run) {
 		} else {
 			o.Bad("the deferred closure does not assign a classified error to the named result: a recovered panic would be swallowed or lost")
 		}
-		c05R3(r, fns, byObj, recoverable, loop, classifier)
+		c05R3v2(r, fns, byObj, recoverable, loop, classifier)
 	}
 	r.Require("R-1", 3)
 
@@ -124,6 +132,7 @@ func runC05(r *Run) {
 		}
 	}
 	runBounds(r, boundsConfig{rule: "R-4", funcs: scope, allFuncs: fns, exceptions: c05Exceptions, noLift: noLift})
+	c05EmitTextNonEmpty(r)
 	r.Require("R-4", 40)
 
 	// ---- R-5 context dispatch
